@@ -5,6 +5,8 @@ package server
 import (
 	"context"
 	"net"
+
+	"github.com/mimecast/dtail/internal/config"
 )
 
 // VerifServe runs the accept loop on a listener supplied by the verification
@@ -19,4 +21,14 @@ func (s *Server) VerifConnections() int {
 	s.stats.mutex.Lock()
 	defer s.stats.mutex.Unlock()
 	return s.stats.currentConnections
+}
+
+// VerifRunScheduledJob runs one scheduled job now, as the scheduler does when its timer fires.
+func (s *Server) VerifRunScheduledJob(ctx context.Context, job config.Scheduled) {
+	s.sched.runJob(ctx, job)
+}
+
+// VerifRunContinuousJob runs one continuous job now, as the continuous job runner does.
+func (s *Server) VerifRunContinuousJob(ctx context.Context, job config.Continuous) {
+	s.cont.runJob(ctx, job)
 }
